@@ -75,6 +75,29 @@ fn canon(v: &Value) -> String {
     }
 }
 
+/// C18 talks about the registration receipt that counts (the one expiring last: what is reported and reloaded) and about
+/// abandon removing all of them; whether superseded receipts of a tower that is still known are kept is left open. Stores
+/// are compared modulo those rows.
+fn norm(st: &Value) -> Value {
+    let mut out = st.clone();
+    let known: Vec<Value> = st["db"]["towers"].as_array().map(|a| a.iter().map(|r| r["t"].clone()).collect()).unwrap_or_default();
+    let regs: Vec<Value> = st["db"]["regs"].as_array().cloned().unwrap_or_default();
+    let kept: Vec<Value> = regs
+        .iter()
+        .filter(|r| {
+            !known.contains(&r["t"])
+                || regs.iter().all(|q| q["t"] != r["t"] || q["expiry"].as_i64().unwrap_or(0) <= r["expiry"].as_i64().unwrap_or(0))
+        })
+        .cloned()
+        .collect();
+    out["db"]["regs"] = Value::Array(kept);
+    out
+}
+
+fn skey(st: &Value) -> String {
+    canon(&norm(st))
+}
+
 // ---------------------------------------------------------------------------------------------------------------------
 // the graph
 
@@ -85,7 +108,8 @@ struct OpEdge {
 
 struct Graph {
     states: Vec<Value>,
-    keys: HashMap<String, usize>,
+    /// skey of every state
+    skeys: Vec<String>,
     out: Vec<Vec<OpEdge>>,
     init: usize,
     /// index in out[s] of the reload operation
@@ -149,7 +173,8 @@ impl Graph {
             .iter()
             .map(|ops| ops.iter().position(|e| e.op["k"] == "reload"))
             .collect();
-        Graph { states, keys, out, init, reload_of }
+        let skeys = states.iter().map(skey).collect();
+        Graph { states, skeys, out, init, reload_of }
     }
 
     fn reload_succ(&self, s: usize) -> Option<usize> {
@@ -187,13 +212,15 @@ impl World {
         };
         for n in 1..=9u8 {
             let t = format!("t{n}");
-            let l = format!("l{n}");
             let id = w.tower_id(&t);
             w.tower_by_bytes.insert(id.to_vec(), t.clone());
             w.tower_by_hex
                 .insert(serde_json::to_value(id).unwrap().as_str().unwrap().to_owned(), t.clone());
             let bad = w.bad_id(&t);
             w.bad_by_bytes.insert(bad.to_vec(), t.clone());
+        }
+        for n in 1..=60u8 {
+            let l = format!("l{n}");
             let loc = w.locator(&l);
             w.loc_by_bytes.insert(loc.to_vec(), l.clone());
             w.loc_by_hex.insert(hex::encode(loc.to_vec()), l);
@@ -748,6 +775,7 @@ fn check_views(imp: &mut Impl, w: &mut World, exp: &Value, rel: Option<&Value>, 
 
 /// names of the top-level components in which two abstract stores differ
 fn diff_components(a: &Value, b: &Value) -> Vec<String> {
+    let (a, b) = (&norm(a), &norm(b));
     let mut d = Vec::new();
     for k in ["towers", "regs", "rcpts", "pend", "inv", "bodies", "proofs"] {
         if canon(&a["db"][k]) != canon(&b["db"][k]) {
@@ -834,7 +862,7 @@ impl Runner {
         let obs = observe(&imp, &mut self.w, &mut bad);
         self.comparisons += 1;
         let init = self.g.init;
-        if canon(&obs) != canon(&self.g.states[init]) || !bad.is_empty() {
+        if skey(&obs) != skey(&self.g.states[init]) || !bad.is_empty() {
             self.record(json!({"path": [], "from": init, "op": {"k": "start"}, "differs": ["initial store"], "observed": obs}));
             return None;
         }
@@ -896,8 +924,8 @@ impl Runner {
         let mut bad = Vec::new();
         let obs = observe(imp, &mut self.w, &mut bad);
         self.comparisons += 1;
-        let key = canon(&obs);
-        let hit = succs.iter().find(|(s2, _)| canon(&self.g.states[*s2]) == key).cloned();
+        let key = skey(&obs);
+        let hit = succs.iter().find(|(s2, _)| self.g.skeys[*s2] == key).cloned();
         for b in &bad {
             wrong.push(format!("raw.{}", b.split('.').next().unwrap_or("?")));
         }
@@ -918,11 +946,14 @@ impl Runner {
         };
         if !dev.is_empty() {
             *self.dev_hits.entry(dev.clone()).or_insert(0) += 1;
-            if self.dev_samples.len() < 5 {
+            let longest = self.dev_samples.iter().map(|d| d["path"].as_array().unwrap().len()).max().unwrap_or(0);
+            if self.dev_samples.len() < 5 || self.trail.len() < longest {
                 let intended = succs.iter().find(|(_, d)| d.is_empty()).map(|x| x.0);
                 let path = self.trail.clone();
                 self.dev_samples.push(json!({"dev": dev, "path": path, "op": op, "observed": obs,
                     "intended": intended.map(|i| self.g.states[i].clone())}));
+                self.dev_samples.sort_by_key(|d| d["path"].as_array().unwrap().len());
+                self.dev_samples.truncate(5);
             }
         }
         // (B), (C)
@@ -1294,7 +1325,7 @@ fn candidate_ops(abs: &Value, towers: &[String], locators: &[String], rng: &mut 
         let m = find(&abs["mem"], |x| x["t"] == t.as_str());
         let reg = |s: u64, e: u64| json!({"k": "register", "t": t, "port": 9000 + e, "slots": s, "start": 10000 + e, "expiry": e});
         if m.is_empty() {
-            ops.push((20, reg(1 + idx, 100 * (idx - 1) + 1)));
+            ops.push((12, reg(1 + idx, 100 * (idx - 1) + 1)));
             for c in ["receipt", "pending", "invalid", "misbehaving", "remove_pending"] {
                 ops.push((1, json!({"k": "ghost", "t": t, "l": locators[rng.gen_range(0..locators.len())], "call": c})));
             }
@@ -1304,14 +1335,14 @@ fn candidate_ops(abs: &Value, towers: &[String], locators: &[String], rng: &mut 
         let status = m["status"].as_str().unwrap_or("?").to_owned();
         let slots = find(&abs["db"]["towers"], |x| x["t"] == t.as_str()).first().and_then(|x| x["slots"].as_u64()).unwrap_or(0);
         let expiry = m["expiry"].as_u64().unwrap_or(0);
-        ops.push((4, reg(slots + 1 + rng.gen_range(0..3), expiry + 1 + rng.gen_range(0..2))));
+        ops.push((3, reg(slots + 1 + rng.gen_range(0..3), expiry + 1 + rng.gen_range(0..2))));
         ops.push((1, reg(slots, expiry + 1)));
         ops.push((1, reg(slots + 1, expiry)));
         ops.push((1, reg(slots, expiry)));
         if slots > 0 {
             ops.push((1, reg(slots - 1, expiry + 1)));
         }
-        ops.push((3, json!({"k": "abandon", "t": t})));
+        ops.push((2, json!({"k": "abandon", "t": t})));
         let npending = m["pending"].as_array().map(|a| a.len()).unwrap_or(0);
         if (status == "temporary_unreachable" || status == "subscription_error") && npending > 0 {
             ops.push((3, json!({"k": "giveup", "t": t})));
